@@ -61,7 +61,9 @@ DOC_CH = {"object": "obj", "string": "str", "object-envsel": "obj"}
 HAS_K = {"Base": True, "Derived": True, "DefK": True, "NoK": False}
 
 LEAVES = {"plain": ["s"], "two": ["s1", "s2"], "grp": ["data.n", "data.m"], "cgroup": ["data.n", "data.m"],
-          "init": ["s"], "list": ["s"], "holder": ["h.save"]}
+          "init": ["s"], "list": ["s"], "holder": ["h.save"], "spell": ["s"]}
+# targets whose option has several spellings (aliases + abbreviations, --t+ of list types, --no_t of yes/no flags)
+SPELL_KINDS = [("alias", None), ("list", "flist"), ("optlist", None), ("yesno", "fnot"), ("cglist", None)]
 
 
 def variants(quick):
@@ -84,6 +86,8 @@ def variants(quick):
         for t, fn in (("dict", None), ("int", "fgroup"), ("int", "fgroup_dict"), ("cgd", None)):
             if wrap is None or not quick or t == "dict":
                 out.append(("grp", {"t": t, "fn": fn, "wrap": wrap}))
+        for tk, fn in SPELL_KINDS:
+            out.append(("spell", {"tk": tk, "fn": fn, "wrap": wrap}))
     out.append(("plain", {"fn": "f1", "t": "req", "wrap": "subsub"})) if quick else None
     out.append(("plain", {"fn": None, "t": "req", "wrap": None, "sreq": True}))
     out.append(("plain", {"fn": "fbad", "t": "req", "wrap": None}))
@@ -96,7 +100,7 @@ def variants(quick):
 
 def plain_targets(shape, o, entry):
     """Ways of additionally supplying a plain / group target, per entry point."""
-    group = shape == "cgroup" or (shape == "grp" and o.get("t") == "cgd")
+    group = shape == "cgroup" or (shape == "grp" and o.get("t") == "cgd") or o.get("tk") == "cglist"
     pos = o.get("t") == "pos"
     if entry == "args":
         out = ["none", "option", "cfg"]
@@ -193,6 +197,8 @@ def source_assignments(shape, entry, o, quick):
     leaves = LEAVES[shape]
     if shape == "cgroup" and o.get("fn") != "f2":
         leaves = leaves[:1]  # data.m is not a source of this link
+    if o.get("tk") == "cglist":
+        leaves = ["data.n"]
     chs = ENTRY_CH[entry]
     per_leaf = subsets(chs) if entry != "print" else [[], ["argv"], ["cfg"]]
     if quick and entry == "args" and len(leaves) == 2:
@@ -203,6 +209,9 @@ def source_assignments(shape, entry, o, quick):
         per_leaf = [[], ["env"], ["cfg"], ["argv"], ["env", "cfg", "argv"]]
         if shape == "holder":
             per_leaf = [[], ["argv"], ["env", "cfg", "argv"]]
+    if quick and entry == "args" and shape == "spell":
+        # the spelling axis multiplies this family; every channel subset of one int source is in the `plain` shapes
+        per_leaf = [[], ["env"], ["cfg"], ["argv"], ["env", "cfg", "argv"]]
     out = []
     for combo in itertools.product(per_leaf, repeat=len(leaves)):
         src = {leaf: c for leaf, c in zip(leaves, combo) if c}
@@ -236,7 +245,7 @@ def enumerate_single(quick):
                     base["serial"] = serial
                 if reparse:
                     base["reparse"] = reparse
-                if shape in ("plain", "two", "grp", "cgroup"):
+                if shape in ("plain", "two", "grp", "cgroup", "spell"):
                     tgts = plain_targets(shape, o, entry)
                     if o.get("fn") == "fbad":
                         tgts = ["none"]
@@ -244,6 +253,13 @@ def enumerate_single(quick):
                         if tgt == "cfg" and entry == "args" and cpos == "root" and not o.get("wrap"):
                             continue
                         cases.append(dict(base, tgt=tgt))
+                    if shape == "spell" and entry == "args":
+                        # the target's own option in every other spelling, after and before the source options
+                        from mc.checks.c15_shapes import SPELL
+
+                        for sp in range(len(SPELL[o["tk"]]["forms"])):
+                            for spos in ("last", "first"):
+                                cases.append(dict(base, tgt="spelled", sp=sp, spos=spos))
                 elif shape == "init":
                     lazy = o.get("decl") == "lazy"
                     for steps in one_steps(entry, lazy):
@@ -331,6 +347,7 @@ def explore(ctx):
     n = {"cases": 0, "accepted": 0, "rejected": 0, "rejected_as_required": 0, "judged": 0, "ignored": 0, "dumps": 0,
          "reparsed": 0, "refused_sets": 0, "accepted_sets": 0, "linkset_parses": 0, "print": 0}
     winners = {}
+    spelled = {}
     shapes_accepted = {}
     relations = {}
     nontrivial = 0
@@ -353,6 +370,9 @@ def explore(ctx):
             n[key] += obs.get(key, 0)
         if case["entry"] == "print":
             n["print"] += 1
+        if obs.get("spelled"):
+            key = obs["spelled"] + (":rejected" if obs.get("rejected_as_required") else ":not-rejected")
+            spelled[key] = spelled.get(key, 0) + 1
         fam = case["shape"] + ("/" + case["o"]["wrap"] if case["o"].get("wrap") else "")
         if obs.get("accepted"):
             shapes_accepted[fam] = shapes_accepted.get(fam, 0) + 1
@@ -390,6 +410,7 @@ def explore(ctx):
         link_set_relations=relations,
         channels_seen_winning={k: sorted(v) for k, v in sorted(winners.items())},
         accepted_per_shape=shapes_accepted,
+        target_option_spellings=spelled,
     )
     ctx.assume("final source values are read from the parsed configuration itself (precedence between channels is C04)")
     ctx.assume("a link whose source lies below a class argument that is not configured is skipped by design (not judged)")
@@ -401,6 +422,9 @@ def explore(ctx):
     ctx.require(n["print"] > 20, "--print_config route exercised")
     ctx.require(n["refused_sets"] > 50 and n["accepted_sets"] > 50, "link sets both refused and accepted")
     ctx.require(all(r in relations for r in ("double", "chain", "self", "independent", "prefix-chain")), "every link-set relation class occurs")
+    ctx.require(all(spelled.get(c + ":rejected", 0) + spelled.get(c + ":not-rejected", 0) > 10
+                    for c in ("canonical", "alias", "abbrev", "append", "negation")),
+                f"every class of spelling of a plain target's option was tried ({spelled})")
     need = {"default", "env", "cfg", "argv", "obj", "str"}
     missing = {fam: sorted(need - w) for fam, w in winners.items() if need - w}
     ctx.require(not missing, f"every channel is seen to determine the final source value in every shape family (missing: {missing})")
